@@ -21,7 +21,7 @@ SECS = ('bonds', 'constraints', 'pairs')
 ORDERS = ((0, 1, 2), (2, 0, 1), (1, 2, 0))
 NUMBERINGS = ('seq', 'gaps', 'offset')
 RESIDUES = ('one', 'two', 'three')
-NOISES = ('none', 'comments', 'preproc', 'spacing', 'trailing', 'repeat')
+NOISES = ('none', 'comments', 'preproc', 'spacing', 'trailing', 'repeat', 'ifdef_inside')
 ELEMS = 'CNOHS'
 BIG_N = (501, 998, 999, 1000, 1001, 3000)
 BIG_FAMILIES = ('chain', 'revchain', 'star', 'comb', 'joined', 'notjoined', 'ring_tail2', 'lone_first')
@@ -175,7 +175,16 @@ def render(n, edges, assign, num='seq', res='one', order=(0, 1, 2), noise='none'
                 out.append('#ifdef FLEXIBLE')
             out.append(head(SECS[s]))
             lines = sec_lines(s, by_sec[s])
-            if noise == 'comments':
+            if noise == 'ifdef_inside':
+                # conditional blocks INSIDE the section, around some of its lines ("preprocessor lines ignored":
+                # every listed pair is read, whichever branch it stands in)
+                half = (len(lines) + 1) // 2
+                out += lines[:half] + ['#ifdef EXTRA_%s' % SECS[s].upper()] + lines[half:] + \
+                    ['#else', '#endif', '#ifndef NO_%s' % SECS[s].upper(), '#endif']
+                if len(lines) == 1:
+                    out[-6:-6] = ['#ifdef ALL_%s' % SECS[s].upper()]
+                    out.insert(-4, '#endif')
+            elif noise == 'comments':
                 out.append(';  ai  aj  funct')
                 for i, ln in enumerate(lines):
                     out.append(ln)
@@ -237,7 +246,7 @@ class C15(Check):
                  'read_topology / MoleculeTop / are_connected / copy and by an independent reference reader')
     level_text = ('every labelled simple graph on 1..4 (quick) / 1..5 (thorough) atoms, with every assignment of its '
                   'edges to bonds/constraints/pairs (at most 2 edges off [ bonds ] beyond 4 edges), 3 numberings, '
-                  '3 residue layouts, 3 section orders and 6 noise templates, and 8 large families (incl. unbonded atoms at the very end / start) at 6 sizes from 501 up to '
+                  '3 residue layouts, 3 section orders and 7 noise templates (incl. conditional blocks inside the sections), and 8 large families (incl. unbonded atoms at the very end / start) at 6 sizes from 501 up to '
                   '3000 atoms are rendered and read by the real code, plus a sequence of 6 different topologies written to one path and read by path, one file per typed section with a comment glued to '
                   'the last token (`1 2 1;c`) and one with indented directives; a coverage statement over that finite space')
     level_note = ('trusted: the reference reader mcx/ref/itp.py (self-tested), the graph enumerators; each file is loaded '
@@ -249,7 +258,7 @@ class C15(Check):
                   'contribute; "equal" copy = the library\'s own == plus field-wise equality; not covered: self-bonds, '
                   'pairs naming an atom number absent from [ atoms ], several molecules per file, CRLF line ends, '
                   'the thorough tier at 5 atoms varies numbering/residue/order/noise one at a time around the defaults')
-    assumptions = ['files are rendered from 6 noise templates; other layouts of comments / preprocessor lines are not covered',
+    assumptions = ['files are rendered from 7 noise templates; other layouts of comments / preprocessor lines are not covered',
                    'atom numberings: 1..n, increasing with gaps (10, 20, 35, 55, 80), offset 101.., and n..1 for the '
                    'reversed large chain']
 
